@@ -69,6 +69,17 @@ CHECKS = {
         design_ref="DESIGN.md 7/C08",
         note="E1/E2; effects-based judgement; no boundary instants; complete for n<=3 in quick, n=4 sampled",
         technique="TLA+ decision table (TLC exhaustive) + TLC validation of real handler activations on fakes"),
+    "C09": dict(
+        category="model_checking",
+        text="The real daemons run 16-round maintenance histories on the fakes: operator actions while paused (move the "
+             "master, two masters, no master, stop replication, crash), disturbances (restarts, kills, ZooKeeper loss by the "
+             "manager / all / not-yet-acknowledging candidates), +-disable semi-sync, with a committing workload; the frozen "
+             "window, every removal of the record (with what the leaving activation observed when it started), kept "
+             "records and light-mode runs are digested to rows and judged by TLC (MaintRows.tla). One genuine finding (S9) "
+             "is listed.",
+        design_ref="DESIGN.md 7/C09",
+        note="effect-based notion of change; CLI path emulated by the record it writes",
+        technique="TLC validation of maintenance histories recorded from real code on fakes (TLA+ row spec)"),
     "C10": dict(
         category="fault_enumeration",
         text="From per-node initial states drawn from the product of read-only/offline flags, sources (incl. stale masters and "
